@@ -29,6 +29,7 @@ type verifC04 struct {
 	diverged   map[string]bool
 	marked     map[string]bool
 	cascade    map[string]bool
+	notRepl    map[string]bool // reachable, but not (fully) replicating from the master
 	step       int
 	checkAB    bool // assert (a)/(b) at checkpoints (semi-sync configuration, master not killed)
 }
@@ -139,7 +140,7 @@ func H_C04_update_active() {
 	}
 	w := verifNewWorld(cfg, ha, casc)
 	c := &verifC04{w: w, master: master, replicas: replicas, wcfg: wcfg, dataLag: map[string]bool{}, stale: map[string]bool{},
-		diverged: map[string]bool{}, marked: map[string]bool{}, cascade: map[string]bool{}}
+		diverged: map[string]bool{}, marked: map[string]bool{}, cascade: map[string]bool{}, notRepl: map[string]bool{}}
 
 	// ---- ground truth ----
 	// GTIDs are concrete here (they are not the subject): master holds {t0}; t0,t1 originate on the master, t2 elsewhere.
@@ -168,7 +169,10 @@ func H_C04_update_active() {
 		s.LagValid, s.Lag = true, 0
 		s.LogFile, s.ReadPos = "bin.1", 1000
 		allowed := []int{}
-		for k := 0; k < 10; k++ {
+		for k := 0; k < 12; k++ {
+			if k >= 10 && verifnd.Param("classes", 0) == 0 {
+				break // classes 10, 11 only where an obligation asks for them
+			}
 			// (classes: bit mask of the replica classes inside this obligation's bound; 0 = all)
 			if mask := verifnd.Param("classes", 0); mask == 0 || mask&(1<<uint(k)) != 0 {
 				allowed = append(allowed, k)
@@ -213,6 +217,13 @@ func H_C04_update_active() {
 			s.IsReplica, s.Source, s.IORunning, s.SQLRunning = true, master, false, false
 		case 9: // error
 			s.IsReplica, s.Source, s.IORunning, s.SQLRunning, s.SQLErrno = true, master, true, false, 1062
+		case 10: // only the IO thread stopped (STOP REPLICA IO_THREAD), no error recorded
+			s.IsReplica, s.Source, s.IORunning, s.SQLRunning = true, master, false, true
+		case 11: // only the SQL thread stopped, no error recorded
+			s.IsReplica, s.Source, s.IORunning, s.SQLRunning = true, master, true, false
+		}
+		if cls >= 7 {
+			c.notRepl[h] = true
 		}
 	}
 	// the manager's observations (real getClusterStateFromDB), health records from the same instant
@@ -294,6 +305,36 @@ func H_C04_update_active() {
 		verifnd.Assert(c.invA(), "post.a")
 		verifnd.Assert(c.invB(), "post.b")
 	}
+	if verifnd.Param("second_pass", 0) == 1 && len(w.fleet.FaultsUsed) == 0 {
+		// a reachable replica that is not replicating from the master is gone from the list at the
+		// latest after the inactivation delay: a second iteration, the delay later, nothing else changed
+		w.fleet.Checkpoint, w.dcs.Checkpoint = nil, nil
+		verifnd.Sleep(cfg.InactivationDelay + time.Second)
+		cs2 := w.observe()
+		csd2 := map[string]*nodestate.NodeState{}
+		for h, ns := range cs2 {
+			cp := *ns
+			csd2[h] = &cp
+		}
+		cur, _ := w.dcs.activeNodes()
+		// ground truth at the second observation (the first iteration may have restarted an IO thread
+		// while adjusting semi-sync): reachable, and not fully replicating from the master
+		still := map[string]bool{}
+		for _, h := range replicas {
+			s := w.fleet.Servers[h]
+			still[h] = c.notRepl[h] && s.Alive && !(s.IsReplica && s.Source == master && s.IORunning && s.SQLRunning)
+		}
+		err2 := w.app.updateActiveNodes(cs2, csd2, cur, master)
+		after, _ := w.dcs.activeNodes()
+		if err == nil && err2 == nil {
+			for _, h := range replicas {
+				if still[h] {
+					verifnd.Reach("C04.not-replicating")
+					verifnd.Assert(!verifContains(after, h), "list.content.not-replicating")
+				}
+			}
+		}
+	}
 	list, _ := w.dcs.activeNodes()
 	if len(list) > len(old) {
 		verifnd.Reach("C04.grew")
@@ -310,6 +351,10 @@ func H_C04_update_active_faults() { H_C04_update_active() }
 // H_C04_evict_guard: the same step with two replicas (so that one can leave while the other
 // joins) and one failing ping of the master: no member may leave the published list then.
 func H_C04_evict_guard() { H_C04_update_active() }
+
+// H_C04_not_replicating: reachable replicas whose replication from the master is stopped, broken or
+// half-stopped (one thread) leave the published list within the inactivation delay.
+func H_C04_not_replicating() { H_C04_update_active() }
 
 // H_C04_set_recovery: SetRecovery(h) removes h from the published list before it
 // writes the mark, so at every crash point / failing coordination call
